@@ -201,6 +201,13 @@ embedded_pairing_core_arch_x86_64_bigint_768_square:
     adc %rbx, %rbx
     adc %r9, %r9
 
+    # The doubled value can be one bit wider than the ten words above (when
+    # the two top words of the operand are large); keep that bit in the top
+    # word of the result until the diagonal has been added.
+    movq $0, %r8
+    adc $0, %r8
+    movq %r8, 88(%rdi)
+
     # Add diagonal (r8 stores the carry)
     movq (%rsi), %rax
     mulq %rax
@@ -233,6 +240,7 @@ embedded_pairing_core_arch_x86_64_bigint_768_square:
     add %rax, %r9
     movq %r9, 80(%rdi)
     adc $0, %rdx
+    add 88(%rdi), %rdx
     movq %rdx, 88(%rdi)
 
     pop %r15
